@@ -149,7 +149,7 @@ def generate(
 
     snowfakery_plugins.setdefault("UniqueId", UniqueId)
     snowfakery_plugins.setdefault("SnowfakeryVersion", SnowfakeryVersion)
-    plugin_options = plugin_options or {}
+    plugin_options = dict(plugin_options or {})  # never write into the caller's dict
     if parse_result.version:
         plugin_options["snowfakery_version"] = parse_result.version
 
